@@ -18,11 +18,16 @@ def sh(cmd, cwd=None, env=None, timeout=3600):
 
 
 def main():
-    args = [a for a in sys.argv[1:] if not a.startswith("--")]
+    argv = sys.argv[1:]
+    as_k = None
+    if "--as" in argv:  # store under /verif/seeded/<ID>-<as_k> (wave 2 deliveries are numbered 1.. in their own outdir)
+        i = argv.index("--as"); as_k = argv[i + 1]; del argv[i:i + 2]
+    args = [a for a in argv if not a.startswith("--")]
     pid, outdir, k, pkg = args[0], args[1], args[2], args[3]
+    as_k = as_k or k
     thorough = "--thorough" in sys.argv
     no_base = "--no-baseline" in sys.argv
-    S = "/tmp/seedrun/%s-%s" % (pid, k)
+    S = "/tmp/seedrun/%s-%s" % (pid, as_k)
     shutil.rmtree(S, ignore_errors=True)
     os.makedirs(S)
     repo = os.path.join(S, "repo")
@@ -31,8 +36,13 @@ def main():
     env.pop("GOSUMDB", None); env.pop("GOTOOLCHAIN", None)
     patch = os.path.join(outdir, "patch%s.diff" % k)
     demo = os.path.join(outdir, "demo%s_test.go" % k)
+    kept = os.path.join(V, "seeded", "%s-%s" % (pid, as_k))
+    if not os.path.exists(patch):  # re-test of a kept change: take it from /verif/seeded
+        patch = os.path.join(kept, "patch.diff")
+        demos = [f for f in os.listdir(kept) if f.endswith("_test.go")]
+        demo = os.path.join(kept, demos[0])
     meta = {"property": pid, "patch": os.path.basename(patch), "demo_package": pkg, "ran": []}
-    demo_dst = os.path.join(repo, pkg, "zz_seed_demo%s_test.go" % k)
+    demo_dst = os.path.join(repo, pkg, "zz_seed_demo%s_test.go" % as_k)
     shutil.copyfile(demo, demo_dst)
     m = re.search(r"^func (Test\w+)", open(demo).read(), re.M)
     tests = re.findall(r"^func (Test\w+)", open(demo).read(), re.M)
@@ -74,10 +84,11 @@ def main():
         meta["detected_thorough"] = rc_t == 1 and any(l.startswith("VIOLATION") for l in lines)
     # keep replay of the detection for the record
     rdir = os.path.join(S, "s", "replays")
-    dst = os.path.join(V, "seeded", "%s-%s" % (pid, k))
+    dst = kept
     os.makedirs(dst, exist_ok=True)
-    shutil.copyfile(patch, os.path.join(dst, "patch.diff"))
-    shutil.copyfile(demo, os.path.join(dst, os.path.basename(demo)))
+    if os.path.abspath(patch) != os.path.abspath(os.path.join(dst, "patch.diff")):
+        shutil.copyfile(patch, os.path.join(dst, "patch.diff"))
+        shutil.copyfile(demo, os.path.join(dst, os.path.basename(demo)))
     for extra in ("notes%s.md" % k, "demo%s.md" % k):
         if os.path.exists(os.path.join(outdir, extra)):
             shutil.copyfile(os.path.join(outdir, extra), os.path.join(dst, extra))
@@ -97,9 +108,9 @@ def main():
     if os.path.exists(mp):
         try:
             oldm = json.load(open(mp))
-            for k in ("needs", "breaks_property", "history"):
-                if k in oldm and k not in meta:
-                    meta[k] = oldm[k]
+            for kk in ("needs", "breaks_property", "history", "existing_suite_passes"):
+                if kk in oldm and kk not in meta:
+                    meta[kk] = oldm[kk]
             # remember earlier outcomes (a check may have been strengthened since)
             hist = meta.setdefault("history", [])
             hist.append({"detected_quick": oldm.get("detected_quick"), "detected_thorough": oldm.get("detected_thorough")})
@@ -107,6 +118,7 @@ def main():
             pass
     json.dump(meta, open(mp, "w"), indent=1)
     shutil.rmtree(S, ignore_errors=True)
+    k = as_k
     print("%s-%s demo_clean=%s demo_mut_fails=%s suite=%s detected_quick=%s %s" % (
         pid, k, meta["demo_passes_clean"], meta["demo_fails_with_change"], meta.get("existing_suite_passes"),
         meta["detected_quick"], ("detected_thorough=%s" % meta.get("detected_thorough")) if "detected_thorough" in meta else ""))
